@@ -439,6 +439,52 @@ w('C08', 'finalize event derives the l2 denom from another bridge id', 'C08.R3',
 w('C08', 'token pair keyed by the l1 denom instead of the derived l2 denom', 'C08.R3',
   (HM, 'if ok, err := ms.HasTokenPair(ctx, bridgeId, l2Denom); err != nil {', 'if ok, err := ms.HasTokenPair(ctx, bridgeId, coin.Denom); err != nil {'))
 
+
+DN='x/ophost/types/denom.go'
+AU='x/ophost/types/auth.go'
+# ---------------- C17
+w('C17', 'little-endian sequence in the leaf', 'C17.R1',
+  (OT, 'seed = binary.BigEndian.AppendUint64(seed, l2Sequence)', 'seed = binary.LittleEndian.AppendUint64(seed, l2Sequence)'))
+w('C17', 'single instead of double leaf hash', 'C17.R1',
+  (OT, '\twithdrawalHash = sha3.Sum256(seed)\n\twithdrawalHash = sha3.Sum256(withdrawalHash[:])\n', '\twithdrawalHash = sha3.Sum256(seed)\n'))
+w('C17', 'sender/receiver digests swapped', 'C17.R1',
+  (OT, '\tsenderDigest := sha3.Sum256([]byte(sender))', '\tsenderDigest := sha3.Sum256([]byte(receiver))'),
+  (OT, '\treceiverDigest := sha3.Sum256([]byte(receiver))', '\treceiverDigest := sha3.Sum256([]byte(sender))'))
+w('C17', 'denom appended raw instead of as a digest (concatenation ambiguity)', 'C17.R1',
+  (OT, '\tseed = append(seed, denomDigest[:]...)\n', '\tseed = append(seed, []byte(denom)...)\n\t_ = denomDigest\n'))
+w('C17', 'L2 denom prefix "L2/"', 'C17.R1',
+  (DN, 'const L2_DENOM_PREFIX = "l2/"', 'const L2_DENOM_PREFIX = "L2/"'))
+w('C17', 'L2 denom hashes the denom before the bridge id', 'C17.R1',
+  (DN, '\tbz = binary.BigEndian.AppendUint64(bz, bridgeId)\n\tbz = append(bz, []byte(l1Denom)...)\n', '\tbz = append(bz, []byte(l1Denom)...)\n\tbz = binary.BigEndian.AppendUint64(bz, bridgeId)\n'))
+w('C17', 'L2 denom hex upper-case verb %X', 'C17.R1',
+  (DN, 'return fmt.Sprintf("%s%x", L2_DENOM_PREFIX, hash[:])', 'return fmt.Sprintf("%s%X", L2_DENOM_PREFIX, hash[:])'))
+w('C17', 'output root places the block hash before the storage root', 'C17.R1',
+  (OT, '\tcopy(seed[1:], storageRoot[:32])\n\tcopy(seed[1+32:], latestBlockHash[:32])', '\tcopy(seed[1:], latestBlockHash[:32])\n\tcopy(seed[1+32:], storageRoot[:32])'))
+w('C17', 'bridge address seeded little-endian', 'C17.R1',
+  (AU, 'binary.BigEndian.PutUint64(seed, bridgeId)', 'binary.LittleEndian.PutUint64(seed, bridgeId)'))
+w('C17', 'node hash not symmetric (always a‖b)', 'C17.R2',
+  (OT, '\t\tdata = sha3.Sum256(append(append(buf, b...), a...))', '\t\tdata = sha3.Sum256(append(append(buf, a...), b...))'))
+w('C17', 'node hash leaves the equal case unhandled (zero digest)', 'C17.R2',
+  (OT, '\tcase 0, 1: // equal or greater', '\tcase 1: // greater'))
+w('C17', 'root fold skips the first proof item', 'C17.R2',
+  (OT, '\tfor _, proof := range proofs {\n\t\tdata = GenerateNodeHash(data[:], proof)\n\t}', '\tfor i, proof := range proofs {\n\t\tif i == 0 {\n\t\t\tcontinue\n\t\t}\n\t\tdata = GenerateNodeHash(data[:], proof)\n\t}'))
+w('C17', 'root fold hashes the proof list right-to-left', 'C17.R2',
+  (OT, '\tfor _, proof := range proofs {\n\t\tdata = GenerateNodeHash(data[:], proof)\n\t}', '\tfor i := len(proofs) - 1; i >= 0; i-- {\n\t\tdata = GenerateNodeHash(data[:], proofs[i])\n\t}'))
+w('C17', '(repaired tree) append(b, a...) re-introduced', 'C17.R3',
+  (OT, '\t\tdata = sha3.Sum256(append(append(buf, b...), a...))', '\t\tdata = sha3.Sum256(append(b, a...))'))
+w('C17', 'output root normalises its input in place (writes caller bytes)', 'C17.R3',
+  (OT, '\tseed := make([]byte, 1+32+32)\n', '\tstorageRoot[0] &= 0x7f\n\tseed := make([]byte, 1+32+32)\n'))
+w('C17', 'leaf hash salted with a package-level variable', 'C17.R4',
+  (OT, 'func GenerateWithdrawalHash(', 'var leafSalt uint64\n\nfunc GenerateWithdrawalHash('),
+  (OT, 'seed = binary.BigEndian.AppendUint64(seed, bridgeId)\n\tseed = binary.BigEndian.AppendUint64(seed, l2Sequence)', 'seed = binary.BigEndian.AppendUint64(seed, bridgeId+leafSalt)\n\tseed = binary.BigEndian.AppendUint64(seed, l2Sequence)'))
+w('C17', 'BENIGN: leaf seed built in a pre-sized buffer with PutUint64 + copy', '',
+  (OT, '\tvar withdrawalHash [32]byte\n\tseed := []byte{}\n\tseed = binary.BigEndian.AppendUint64(seed, bridgeId)\n\tseed = binary.BigEndian.AppendUint64(seed, l2Sequence)\n\n\t// variable length\n\tsenderDigest := sha3.Sum256([]byte(sender))\n\tseed = append(seed, senderDigest[:]...) // put utf8 encoded address\n\t// variable length\n\treceiverDigest := sha3.Sum256([]byte(receiver))\n\tseed = append(seed, receiverDigest[:]...) // put utf8 encoded address\n\t// variable length\n\tdenomDigest := sha3.Sum256([]byte(denom))\n\tseed = append(seed, denomDigest[:]...)\n\tseed = binary.BigEndian.AppendUint64(seed, amount)\n',
+       '\tvar withdrawalHash [32]byte\n\tseed := make([]byte, 8+8+32+32+32+8)\n\tbinary.BigEndian.PutUint64(seed[0:], bridgeId)\n\tbinary.BigEndian.PutUint64(seed[8:], l2Sequence)\n\tsd := sha3.Sum256([]byte(sender))\n\tcopy(seed[16:], sd[:])\n\trd := sha3.Sum256([]byte(receiver))\n\tcopy(seed[48:], rd[:])\n\tdd := sha3.Sum256([]byte(denom))\n\tcopy(seed[80:], dd[:])\n\tbinary.BigEndian.PutUint64(seed[112:], amount)\n'))
+w('C17', 'BENIGN: root fold as an indexed loop', '',
+  (OT, '\tfor _, proof := range proofs {\n\t\tdata = GenerateNodeHash(data[:], proof)\n\t}', '\tfor i := 0; i < len(proofs); i++ {\n\t\tdata = GenerateNodeHash(data[:], proofs[i])\n\t}'))
+w('C17', 'BENIGN: node hash with capacity-clipped append', '',
+  (OT, '\t\tdata = sha3.Sum256(append(append(buf, b...), a...))', '\t\tdata = sha3.Sum256(append(b[:len(b):len(b)], a...))'))
+
 #@@MORE@@
 for p,l in W.items():
     json.dump(l, open(os.path.join(HERE,p+'.json'),'w'), indent=1)
